@@ -106,7 +106,11 @@ CLAIMED = {
  "C15": C("Proved for EVERY argument value (hostile ones included): C15_mail_one_line and C15_rcpt_one_line (the line built from sender/recipient, "
           "every MailOptions/RcptOptions field, through all three encoders, the decimal and RFC 3339 renderers, contains neither CR nor LF), "
           "C15_hostile_address_refused (an address with CR/LF yields no line at all), C15_no_ext_no_params (nothing offered => nothing but the "
-          "address is sent), C15_unoffered_is_error (REQUIRETLS/SMTPUTF8 not offered => local error). Implementation: line-discipline and "
+          "address is sent), C15_unoffered_is_error (REQUIRETLS/SMTPUTF8 not offered => local error), C15_mail_params_gated / C15_mail_default_gated / "
+          "C15_rcpt_params_gated (per extension: the line is the address plus one piece per extension, each empty unless that extension is in "
+          "the latest capability list; a requested REQUIRETLS/SMTPUTF8 is on the line), C15_call_whole_lines / C15_one_line_per_call / "
+          "C15_history_keeps_premises (whole calls of the client model, any peer: Hello, Verify, Mail, Rcpt, Reset, Noop, Quit write whole "
+          "lines x CRLF without CR/LF in x, one per call plus at most two for the implicit EHLO/HELO, along every history). Implementation: line-discipline and "
           "negotiated-parameter monitor on the real client over extension subsets x option subsets, EHLO twice, HELO fallback (also after Reset), "
           "hostile strings in every string argument; compared with the Lean client model.",
           "DESIGN.md 0.3 + 7 C15", "Lean 4 proof (command-line builders) + monitors + differential correspondence (cconv probe)",
